@@ -40,15 +40,37 @@ structure FactsR (c : Ctx) (N : Prop) (tk : Nat) (Sup0 : Vtx → Prop) : Prop wh
   noTarget : ∀ x, c.g.hasEdge x (.func tk) = false
   outTyped : ∀ k f, c.funcOf k = some f → OutTyped f (c.g.ins (.func k))
 
-variable {c : Ctx} {N : Prop} {tk : Nat} {Sup0 Sup : Vtx → Prop}
+variable {c : Ctx} {N : Prop} {tk : Nat} {Sup0 Sup : Vtx → Prop} {E : RErr → Prop}
+
+/-- `Complete.WInv` with an arbitrary set `E` of admitted errors -/
+def WInvE (c : Ctx) (N : Prop) (Sup : Vtx → Prop) (E : RErr → Prop) (w : WalkSt) : Prop :=
+  (∀ e, w.err = some e → E e) ∧
+  (w.err = none → SInv c N Sup w.s ∧ PrevOK c w.s w.final w.prev)
+
+/-- the nested search of a converter whose requirements are all filled fails with an admitted error or
+returns at once -/
+def RecSpecE (c : Ctx) (E : RErr → Prop) (rec : Vtx → CallSt → Except RErr ArgMap × CallSt) : Prop :=
+  ∀ k s, (∀ v ∈ c.g.outs (.func k), (v == Vtx.root || takenAsIs c s v) = true) →
+    (∃ e, (rec (.func k) s).1 = .error e ∧ E e) ∨
+    ∃ rest, rec (.func k) s =
+      (.ok ((c.g.outs (.func k)).filterMap (fun v => if v == Vtx.root then none else (s.get v).map (fun x => (v, x)))),
+       { s with orc := rest })
+
+theorem RecSpecE.of_recSpec {rec : Vtx → CallSt → Except RErr ArgMap × CallSt} (h : RecSpec c rec) :
+    RecSpecE c (Allowed N) rec := by
+  intro k s hall
+  rcases h k s hall with ⟨w, hw⟩ | h'
+  · exact Or.inl ⟨_, hw, Or.inl ⟨w, rfl⟩⟩
+  · exact Or.inr h'
 
 /-! ### one step of the walk -/
 
-theorem walkStep_winv' (gf : FactsR c N tk Sup0) (rec : Vtx → CallSt → Except RErr ArgMap × CallSt)
-    (hrec : RecSpec c rec) (w : WalkSt) (v : Vtx) (hw : WInv c N Sup w)
+theorem walkStep_winv' (gf : FactsR c N tk Sup0) (hEf : ∀ ε, ¬ N → E (.funcErr ε))
+    (rec : Vtx → CallSt → Except RErr ArgMap × CallSt)
+    (hrec : RecSpecE c E rec) (w : WalkSt) (v : Vtx) (hw : WInvE c N Sup E w)
     (hedge : w.err = none → ∃ u, w.prev = some u ∧ c.g.hasEdge v u = true) (hv : v ≠ .func tk)
     (hroot : w.err = none → w.prev = some .root → v.isFunc = true ∨ Sup v) :
-    WInv c N Sup (walkStep c rec w v) ∧
+    WInvE c N Sup E (walkStep c rec w v) ∧
     ((walkStep c rec w v).err = none → (walkStep c rec w v).s.inputSet = w.s.inputSet) := by
   cases herr : w.err with
   | some e => rw [walkStep_err c rec herr]; exact ⟨hw, fun _ => rfl⟩
@@ -200,9 +222,9 @@ theorem walkStep_winv' (gf : FactsR c N tk Sup0) (rec : Vtx → CallSt → Excep
             takenAsIs_of_isSome gf.tvn _ _ (by rw [hu']; exact vertex_kind _)
               (hu_some (by rw [hu']; exact vertex_ne_root _))
           rw [this]; simp
-      rcases hrec k w.s hready with ⟨wm, hbad⟩ | ⟨rest, hok⟩
+      rcases hrec k w.s hready with ⟨wm, hbad, hE⟩ | ⟨rest, hok⟩
       · rw [walkStep_func_recErr c rec herr k hfo (pair_of_fst _ _ hbad)]
-        exact ⟨⟨fun e h => by cases h; exact Or.inl ⟨_, rfl⟩, fun h => by cases h⟩, fun h => by cases h⟩
+        exact ⟨⟨fun e h => by cases h; exact hE, fun h => by cases h⟩, fun h => by cases h⟩
       · -- the argument map holds the converter's only argument
         have hS1 : SInv c N Sup { w.s with orc := rest } := hS.congr rfl rfl
         have hga : ∃ args, gatherArgs c.env f
@@ -230,7 +252,7 @@ theorem walkStep_winv' (gf : FactsR c N tk Sup0) (rec : Vtx → CallSt → Excep
           rw [walkStep_func_funcErr c rec herr k hfo hok hcd hre]
           refine ⟨⟨fun e h => ?_, fun h => by cases h⟩, fun h => by cases h⟩
           cases h
-          refine Or.inr ⟨⟨_, rfl⟩, fun hne => ?_⟩
+          refine hEf _ (fun hne => ?_)
           rw [hr2 hne] at hre; cases hre
         | none =>
           have hS2 : SInv c N Sup s2 := ⟨fun x v hv => hS1.typed x v (by unfold CallSt.get at hv ⊢; rw [← hst2]; exact hv),
@@ -256,12 +278,13 @@ theorem walkFold_err_mono (rec : Vtx → CallSt → Except RErr ArgMap × CallSt
     rw [List.foldl_cons] at h
     exact walkStep_err_mono c rec w v (ih _ h)
 
-theorem walkFold_winv' (gf : FactsR c N tk Sup0) (rec : Vtx → CallSt → Except RErr ArgMap × CallSt)
-    (hrec : RecSpec c rec) (p : List Vtx) (w : WalkSt) (hw : WInv c N Sup w)
+theorem walkFold_winv' (gf : FactsR c N tk Sup0) (hEf : ∀ ε, ¬ N → E (.funcErr ε))
+    (rec : Vtx → CallSt → Except RErr ArgMap × CallSt)
+    (hrec : RecSpecE c E rec) (p : List Vtx) (w : WalkSt) (hw : WInvE c N Sup E w)
     (hpath : w.err = none → ∃ u, w.prev = some u ∧ Chain c.g u p) (hnt : ∀ v ∈ p, v ≠ .func tk)
     (hnr : ∀ v ∈ p, v ≠ .root)
     (hfirst : w.err = none → w.prev = some .root → ∀ v, p.head? = some v → v.isFunc = true ∨ Sup v) :
-    WInv c N Sup (p.foldl (walkStep c rec) w) ∧
+    WInvE c N Sup E (p.foldl (walkStep c rec) w) ∧
     ((p.foldl (walkStep c rec) w).err = none → ∀ l, p.getLast? = some l →
       (p.foldl (walkStep c rec) w).prev = some l) ∧
     ((p.foldl (walkStep c rec) w).err = none → (p.foldl (walkStep c rec) w).s.inputSet = w.s.inputSet) := by
@@ -269,7 +292,7 @@ theorem walkFold_winv' (gf : FactsR c N tk Sup0) (rec : Vtx → CallSt → Excep
   | nil => exact ⟨hw, fun _ l h => by simp at h, fun _ => rfl⟩
   | cons v rest ih =>
     rw [List.foldl_cons]
-    obtain ⟨hw1, hin1⟩ := walkStep_winv' (Sup := Sup) gf rec hrec w v hw
+    obtain ⟨hw1, hin1⟩ := walkStep_winv' (Sup := Sup) gf hEf rec hrec w v hw
         (fun he => by
           obtain ⟨u, hu, hc⟩ := hpath he
           exact ⟨u, hu, hc.1⟩)
@@ -306,10 +329,11 @@ def GoodPath' (c : Ctx) (tk : Nat) (Sup : Vtx → Prop) (p : List Vtx) : Prop :=
     (∀ v ∈ rest, v ≠ .root) ∧ (∀ v, rest.head? = some v → v.isFunc = true ∨ Sup v) ∧
     ∀ l, rest.getLast? = some l → (l.isValue = true ∨ l.isArg = true)
 
-theorem walkPaths_spec' (gf : FactsR c N tk Sup0) (rec : Vtx → CallSt → Except RErr ArgMap × CallSt)
-    (hrec : RecSpec c rec) (paths : List (List Vtx)) (hp : ∀ p ∈ paths, GoodPath' c tk Sup p) (am : ArgMap)
+theorem walkPaths_spec' (gf : FactsR c N tk Sup0) (hEf : ∀ ε, ¬ N → E (.funcErr ε))
+    (rec : Vtx → CallSt → Except RErr ArgMap × CallSt)
+    (hrec : RecSpecE c E rec) (paths : List (List Vtx)) (hp : ∀ p ∈ paths, GoodPath' c tk Sup p) (am : ArgMap)
     (s : CallSt) (hs : SInv c N Sup s) :
-    (∀ e, (walkPaths c rec paths am s).1 = .error e → Allowed N e) ∧
+    (∀ e, (walkPaths c rec paths am s).1 = .error e → E e) ∧
     (∀ am', (walkPaths c rec paths am s).1 = .ok am' →
       (walkPaths c rec paths am s).2.inputSet = s.inputSet) := by
   induction paths generalizing am s with
@@ -318,9 +342,9 @@ theorem walkPaths_spec' (gf : FactsR c N tk Sup0) (rec : Vtx → CallSt → Exce
   | cons p rest ih =>
     obtain ⟨tl, hptl, htl, hchain, hnt, hnr, hfirst, hkind⟩ := hp p (by simp)
     unfold walkPaths
-    have hw1 : WInv c N Sup { s := s, final := none, prev := some .root, err := none } :=
+    have hw1 : WInvE c N Sup E { s := s, final := none, prev := some .root, err := none } :=
       ⟨fun e h => (by cases h), fun _ => ⟨hs, trivial⟩⟩
-    have hfold := walkFold_winv' (Sup := Sup) gf rec hrec tl _ hw1 (fun _ => ⟨.root, rfl, hchain⟩) hnt hnr
+    have hfold := walkFold_winv' (Sup := Sup) gf hEf rec hrec tl _ hw1 (fun _ => ⟨.root, rfl, hchain⟩) hnt hnr
       (fun _ _ => hfirst)
     have hfeq : p.foldl (walkStep c rec) { s := s, final := none, prev := none, err := none } =
         tl.foldl (walkStep c rec) { s := s, final := none, prev := some .root, err := none } := by
@@ -553,12 +577,77 @@ theorem reach_all_present' (c : Ctx) (hsr : c.skipRecordsInput = false) (hauto :
 
 /-! ### the top-level `reach` in redefine mode -/
 
-theorem reach_top' (gf : FactsR c N tk Sup0) (m : Nat)
-    (hrec : RecSpec c (fun v st => reach c true m [.func tk] v st)) (s : CallSt) (hs : SInv c N Sup0 s)
+theorem mem_addInput_self (s : CallSt) (v : Vtx) : v ∈ (s.addInput v).inputSet := by
+  unfold CallSt.addInput
+  split
+  · assumption
+  · show v ∈ s.inputSet ++ [v]
+    simp
+
+theorem mem_addInput_mono (s : CallSt) (v x : Vtx) (h : x ∈ s.inputSet) : x ∈ (s.addInput v).inputSet := by
+  unfold CallSt.addInput
+  split
+  · exact h
+  · show x ∈ s.inputSet ++ [v]
+    exact List.mem_append_left _ h
+
+theorem planOne_inputSet (target : Vtx) (reaching : List Vtx) (trk rd : Bool) (ps : PlanSt) (cp : Vtx × List Vtx) :
+    (planOne target reaching trk rd ps cp).s.inputSet =
+      match pathInput cp.2 with
+      | none => ps.s.inputSet
+      | some input => (ps.s.addInput input).inputSet := by
+  unfold planOne
+  dsimp only
+  cases hpi : pathInput cp.2 with
+  | none => rfl
+  | some input =>
+    dsimp only
+    split
+    · split
+      · split
+        · rw [RedefineInputs.set_inputSet]
+        · rfl
+      · rw [RedefineInputs.set_inputSet]
+      · rfl
+    · rfl
+
+/-- the input of every planned path is recorded -/
+theorem plan_inputs (target : Vtx) (reaching : List Vtx) (trk rd : Bool) (l : List (Vtx × List Vtx)) (ps : PlanSt) :
+    (∀ x ∈ ps.s.inputSet, x ∈ (l.foldl (planOne target reaching trk rd) ps).s.inputSet) ∧
+    ∀ cp ∈ l, ∀ x, pathInput cp.2 = some x → x ∈ (l.foldl (planOne target reaching trk rd) ps).s.inputSet := by
+  induction l generalizing ps with
+  | nil => exact ⟨fun x h => h, fun cp hcp => by cases hcp⟩
+  | cons a l ih =>
+    rw [List.foldl_cons]
+    obtain ⟨i1, i2⟩ := ih (planOne target reaching trk rd ps a)
+    have hmono : ∀ x ∈ ps.s.inputSet, x ∈ (planOne target reaching trk rd ps a).s.inputSet := by
+      intro x hx
+      rw [planOne_inputSet]
+      split
+      · exact hx
+      · exact mem_addInput_mono _ _ _ hx
+    refine ⟨fun x hx => i1 x (hmono x hx), ?_⟩
+    intro cp hcp x hx
+    rcases List.mem_cons.1 hcp with rfl | hcp
+    · apply i1
+      rw [planOne_inputSet, hx]
+      exact mem_addInput_self _ _
+    · exact i2 cp hcp x hx
+
+/-- what a successful planning run tells about a requirement `r` of the target: it was taken as it is, or
+resolved along a real root-first path whose input was recorded -/
+def Resolved (c : Ctx) (s : CallSt) (I : List Vtx) (r : Vtx) : Prop :=
+  r = .root ∨ takenAsIs c s r = true ∨
+    ∃ p x, validPath c.g r p = true ∧ pathInput p = some x ∧ x ∈ I
+
+theorem reach_top' (gf : FactsR c N tk Sup0) (hEf : ∀ ε, ¬ N → E (.funcErr ε)) (hEb : ∀ w, E (.badOracle w))
+    (m : Nat)
+    (hrec : RecSpecE c E (fun v st => reach c true m [.func tk] v st)) (s : CallSt) (hs : SInv c N Sup0 s)
     (hin : s.inputSet.Nodup) :
-    (∀ e, (reach c true (m + 1) [] (.func tk) s).1 = .error e → Allowed N e) ∧
+    (∀ e, (reach c true (m + 1) [] (.func tk) s).1 = .error e → E e) ∧
     (∀ am, (reach c true (m + 1) [] (.func tk) s).1 = .ok am →
-      (reach c true (m + 1) [] (.func tk) s).2.inputSet.Nodup) := by
+      (reach c true (m + 1) [] (.func tk) s).2.inputSet.Nodup ∧
+      ∀ r ∈ c.g.outs (.func tk), Resolved c s (reach c true (m + 1) [] (.func tk) s).2.inputSet r) := by
   unfold reach
   dsimp only
   generalize ((c.g.outs (.func tk)).filter (fun v => v == Vtx.root || takenAsIs c s v)).filterMap
@@ -571,8 +660,16 @@ theorem reach_top' (gf : FactsR c N tk Sup0) (m : Nat)
     rcases hreq with rfl | ⟨v, _, rfl⟩
     · simp at hcur
     · exact vertex_kind _
+  have hcover : ∀ y ∈ c.g.outs (.func tk), (y = .root ∨ takenAsIs c s y = true) ∨
+      y ∈ (c.g.outs (.func tk)).filter (fun v => !(v == Vtx.root || takenAsIs c s v)) := by
+    intro y hy
+    cases h : (y == Vtx.root || takenAsIs c s y) with
+    | true =>
+      simp only [Bool.or_eq_true, beq_iff_eq] at h
+      exact Or.inl h
+    | false => exact Or.inr (List.mem_filter.2 ⟨hy, by simp [h]⟩)
   generalize (c.g.outs (.func tk)).filter (fun v => !(v == Vtx.root || takenAsIs c s v)) = missingM
-    at hmiss
+    at hmiss hcover
   have hs1 : SInv c N Sup0 (if c.skipRecordsInput then
       ((c.g.outs (.func tk)).filter (fun v => v == Vtx.root || takenAsIs c s v)).foldl CallSt.addInput s else s) ∧
       (if c.skipRecordsInput then
@@ -584,24 +681,29 @@ theorem reach_top' (gf : FactsR c N tk Sup0) (m : Nat)
     at hs1
   obtain ⟨hs1, hin1⟩ := hs1
   split
-  · exact ⟨fun e h => by cases h; exact Or.inl ⟨_, rfl⟩, fun am h => by cases h⟩
+  · exact ⟨fun e h => by cases h; exact hEb _, fun am h => by cases h⟩
   · rename_i item orcRest _
     have hs2 : SInv c N Sup0 { s1 with orc := orcRest } := hs1.congr rfl rfl
     split
-    · exact ⟨fun e h => by cases h; exact Or.inl ⟨_, rfl⟩, fun am h => by cases h⟩
+    · exact ⟨fun e h => by cases h; exact hEb _, fun am h => by cases h⟩
     · split
-      · exact ⟨fun e h => by cases h; exact Or.inl ⟨_, rfl⟩, fun am h => by cases h⟩
+      · exact ⟨fun e h => by cases h; exact hEb _, fun am h => by cases h⟩
       · rename_i hsame
         have hsame' : sameMembers item.missing missingM = true := by simpa using hsame
         simp only [sameMembers, Bool.and_eq_true, List.all_eq_true, decide_eq_true_eq] at hsame'
         split
-        · exact ⟨fun e h => (by cases h), fun am h => hin1⟩
+        · rename_i hempty
+          refine ⟨fun e h => (by cases h), fun am h => ⟨hin1, fun r hr => ?_⟩⟩
+          rcases hcover r hr with (h | h) | h
+          · exact Or.inl h
+          · exact Or.inr (Or.inl h)
+          · rw [List.isEmpty_iff.1 hempty] at h; cases h
         · split
-          · exact ⟨fun e h => by cases h; exact Or.inl ⟨_, rfl⟩, fun am h => by cases h⟩
+          · exact ⟨fun e h => by cases h; exact hEb _, fun am h => by cases h⟩
           · rename_i hlen
             simp only [ne_eq, Decidable.not_not] at hlen
             split
-            · exact ⟨fun e h => by cases h; exact Or.inl ⟨_, rfl⟩, fun am h => by cases h⟩
+            · exact ⟨fun e h => by cases h; exact hEb _, fun am h => by cases h⟩
             · rename_i hvalid
               have hvalid' : ((item.missing.zip item.paths).all fun cp => validPath c.g cp.1 cp.2) = true := by
                 simpa using hvalid
@@ -620,6 +722,8 @@ theorem reach_top' (gf : FactsR c N tk Sup0) (m : Nat)
                   (fun ps cp h => planOne_nodup _ _ _ _ ps cp h) _ _ hin1
               have hset := plan_sets (.func tk) [.func tk] c.trackReaching (item.missing.zip item.paths)
                   { s := { s1 with orc := orcRest }, unsat := [] }
+              have hrecd := (plan_inputs (.func tk) [.func tk] c.trackReaching true (item.missing.zip item.paths)
+                  { s := { s1 with orc := orcRest }, unsat := [] }).2
               have hun : ((item.missing.zip item.paths).foldl
                   (planOne (.func tk) [.func tk] c.trackReaching true)
                   { s := { s1 with orc := orcRest }, unsat := [] }).unsat = [] := by
@@ -634,7 +738,7 @@ theorem reach_top' (gf : FactsR c N tk Sup0) (m : Nat)
                 · exact hnt v h hmem
               generalize (item.missing.zip item.paths).foldl
                   (planOne (.func tk) [.func tk] c.trackReaching true)
-                  { s := { s1 with orc := orcRest }, unsat := [] } = ps3 at hs3 hin3 hset hun
+                  { s := { s1 with orc := orcRest }, unsat := [] } = ps3 at hs3 hin3 hset hrecd hun
               split
               · rename_i hne
                 rw [hun] at hne
@@ -647,7 +751,7 @@ theorem reach_top' (gf : FactsR c N tk Sup0) (m : Nat)
                   rintro x (hx | ⟨hk, cp, hcp, hpi⟩)
                   · exact hs3.sup x hx
                   · exact hset cp hcp x hpi hk
-                have hwp := walkPaths_spec' (Sup := Sup1) gf _ hrec item.paths
+                have hwp := walkPaths_spec' (Sup := Sup1) gf hEf _ hrec item.paths
                   (by
                     intro p hp
                     obtain ⟨cur, _, hz⟩ := zip_snd_mem item.missing item.paths hlen p hp
@@ -671,6 +775,17 @@ theorem reach_top' (gf : FactsR c N tk Sup0) (m : Nat)
                   am0 _ hs4
                 refine ⟨hwp.1, fun am h => ?_⟩
                 rw [hwp.2 am h]
-                exact hin3
+                refine ⟨hin3, fun r hr => ?_⟩
+                rcases hcover r hr with (h | h) | h
+                · exact Or.inl h
+                · exact Or.inr (Or.inl h)
+                · obtain ⟨p, hp, hz⟩ := zip_fst_mem item.missing item.paths hlen r (hsame'.1.2 _ h)
+                  obtain ⟨⟨rest, hpe, hne, _⟩, _⟩ := hgood _ hz
+                  have hpe' : p = Vtx.root :: rest := hpe
+                  cases rest with
+                  | nil => exact absurd rfl hne
+                  | cons y' rest' =>
+                    refine Or.inr (Or.inr ⟨p, y', List.all_eq_true.1 hvalid' _ hz, by rw [hpe']; rfl, ?_⟩)
+                    exact hrecd _ hz y' (by show pathInput p = some y'; rw [hpe']; rfl)
 
 end ArgMapper.RedefC
